@@ -18,7 +18,7 @@ rsync -a --exclude target --exclude work --exclude replays --exclude evidence --
 if ! (cd "$S/repo" && patch -p1 $REV --quiet < "$PATCH"); then echo "SELFTEST $ID $(basename "$PATCH"): patch does not apply"; exit 3; fi
 export CARGO_NET_OFFLINE=true
 if [ "${SKIP_REPO_TESTS:-0}" != 1 ]; then
-  if ! (cd "$S/repo" && cargo test --workspace --no-fail-fast --offline >"$S/test.log" 2>&1); then
+  if ! (cd "$S/repo" && timeout 600 cargo test --workspace --no-fail-fast --offline >"$S/test.log" 2>&1); then
     echo "SELFTEST $ID $(basename "$PATCH"): repo tests FAIL with the patch (not a valid mutant)"; tail -15 "$S/test.log"; exit 4
   fi
 fi
